@@ -267,6 +267,21 @@ def c15(res, tier, seed):
         records.append({"kind": "timeout", "ret": p[1]["ret"], "ms": p[1]["ms"], "timeout": 1, "slack_ms": 4000})
         owners.append(("timeout", what, p[1]["ms"], "scanner reused after the timeout: ret=%d" % p[1]["ret"]))
         res.count(1, ("timeout", what))
+    # the deadline of a scan that is suspended (block not ready) and repeated: the time limit is for the scan, not for each call -
+    # 12 blocks that take 700 ms each to arrive, not-ready before every one of them, 1 s timeout
+    lines = ["init", "opt iterlog 0", "opt logmatches 0", "opt hang 120", "compiler 0", "add 0 - " + yv.hx(b'rule a { strings: $a = "needle" condition: $a }'), "getrules 0 0", "cdestroy 0",
+             "scanner 0 0", "stimeout 0 1", "datarep 1 %s %d" % (yv.hx(b"abcd"), 12 * 1024), "opt itersleep 700",
+             "scan 0 1 blocks %s %s -" % (",".join(["4096"] * 12), ",".join(str(2 * k) for k in range(13))), "opt itersleep 0", "stimeout 0 0", "scan 0 1 mem - - -", "sdestroy 0", "rdestroy 0", "finalize"]
+    run = yv.run_script(exe, lines, wd, name="c15_timeout_resume", hang=120, timeout=300)
+    rets = [e for e in run.events if e["e"] == "ScanRet"]
+    if not run.complete or len(rets) < 2:
+        res.violation("timeout of a suspended and repeated scan: %s" % yv.crash_summary(run), yv.save_replay("C15", "timeout_resume_crash", {"crash": yv.crash_summary(run)}))
+    else:
+        records.append({"kind": "timeout", "ret": rets[0]["ret"], "ms": rets[0]["ms"], "timeout": 1, "slack_ms": 4000})
+        owners.append(("timeout", "scan suspended before each of 12 slow blocks and repeated (%d calls)" % rets[0]["calls"], rets[0]["ms"], "ret=%d" % rets[0]["ret"]))
+        records.append({"kind": "recovered", "after": rets[1]["ret"], "after_normal": 0})
+        owners.append(("timeout", "scanner reused after it", rets[1]["ms"], "ret=%d" % rets[1]["ret"]))
+        res.count(1, ("timeout", "resumed"))
     bad, known, states = func.tlc_judge2(records, wd, "c15")
     res.cov["states"] += states; res.cov["transitions"] += states
     res.cov["traces_validated_against_impl"] += len(records) - len(bad)
